@@ -82,6 +82,7 @@ def slice(ctx: fw.Ctx) -> fw.Outcome:
             out.model_bug("metadata", rp, model=common.short(str(pj(dy))), promised=common.short(str(truth)))
     order_law(ctx, out)
     direct(ctx, out)
+    by_path(ctx, out)
     return out
 
 
@@ -138,6 +139,25 @@ def direct(ctx, out):
                           observed=str(g_), promised=str(w))
 
 
+def by_path(ctx, out):
+    """the same [Song] read from a real file — UTF-8 with and without a byte-order mark — decodes as it does from a stream"""
+    rng = ctx.sub("bypath")
+    prof = gen.Profile(meta_fields=0.6, tricky_text=0.8, max_tracks=0, max_events=0, max_tempo=1, garbage=0.0, unknown_sections=0.0, crlf=0.0)
+    for _ in range(ctx.n(25, 1500)):
+        src = gen.rand_src(rng, prof)
+        src.meta.setdefault("artist", rng.choice(["Motörhead", "日本", "Beyoncé “Live”", "naïve\u00a0x"]))
+        R = gen.render(src, rng, prof, garbage=False, newline="\n")
+        want = impl.run_chart(R.text)
+        for nm, data in (("utf8", R.text.encode("utf-8")), ("utf8-bom", b"\xef\xbb\xbf" + R.text.encode("utf-8"))):
+            got = impl.run_path(data)
+            rp = {"op": "bypath", "hex": data.hex(), "text": R.text}
+            out.case("P" + fw.h(rp), True, None, tags=["path-" + nm])
+            if got != want:
+                p_, q_ = fw.first_diff(want, got)
+                out.violation("bypath-" + fw.h(rp), f"[Song] read from a {nm} file decodes differently from the same text read from a stream: {p_[:100]!r} vs {q_[:100]!r}", rp,
+                              observed=q_[:200], promised=p_[:200])
+
+
 def order_law(ctx, out):
     """permuting the lines of a [Song] body (one line per field, plus foreign lines) never changes the result"""
     rng = ctx.sub("order")
@@ -157,6 +177,9 @@ def order_law(ctx, out):
 
 
 def replay(ctx, data):
+    if data["op"] == "bypath":
+        a, b = impl.run_chart(data["text"]), impl.run_path(bytes.fromhex(data["hex"]))
+        return a != b, str(fw.first_diff(a, b))[:300]
     if data["op"] == "direct":
         got = song_dump(list(data["lines"]) if data["form"] in ("list", "tuple") else iter(data["lines"]))
         if got.startswith("E "):
